@@ -494,8 +494,9 @@ def run(ctx):
     from ..common import pmap
     res = pmap(validate, todo, ctx.jobs, "fresh-replay")
     evs = dict((e.name, e) for e in list(model.events()) + list(memo.events()))
+    acc.traces = acc.transitions     # every explored transition was executed on the real interpreter (fork/replay)
     for factory, h, probes, got, want in res:
-        acc.traces += 1
+        acc.count("fresh_interpreter_replays")
         # a fresh interpreter must observe exactly what the forked exploration observed: for clean
         # states that is the canonical observation of every event
         for n, g, w in zip(list(h) + probes, got, want):
